@@ -32,4 +32,12 @@ impl AtomicInstant {
     pub(crate) fn set_instant(&self, instant: Instant) {
         *self.instant.write().expect("lock poisoned") = Some(instant);
     }
+
+    /// Sets the instant unless a later (or the same) instant has already been set.
+    pub(crate) fn set_instant_if_later(&self, instant: Instant) {
+        let mut guard = self.instant.write().expect("lock poisoned");
+        if guard.map_or(true, |current| current < instant) {
+            *guard = Some(instant);
+        }
+    }
 }
